@@ -204,7 +204,35 @@ def assign_term(case, obs):
     return '(%d, %s, %s, %s, %s, %s)' % (case['vlevel'], cstr(case['dt']), cstr(case['init']), clist(ops), fts, jts)
 
 
+def object_assignments(ctx):
+    """values assigned as Python objects whose written form is not valid text of the field (an empty list of segments,
+    overlaps or items; a boolean for an integer): from level 2 on the line is not written silently"""
+    g = impl.gfapy()
+    for vl in (2, 3):
+        for text, ver, f, v in [('P\tp\ta+,b-\t*', 'gfa1', 'segment_names', []), ('P\tp\ta+,b-\t*', 'gfa1', 'overlaps', []),
+                                ('O\to\ta+ b-', 'gfa2', 'items', []), ('U\tu\ta b', 'gfa2', 'items', []),
+                                ('S\ta\t10\t*', 'gfa2', 'slen', True), ('G\tg\ta+\tb-\t5\t*', 'gfa2', 'var', True)]:
+            l = g.Line(text, version=ver, vlevel=vl)
+            case = {'kind': 'object', 'text': text, 'version': ver, 'vlevel': vl, 'field': f, 'value_repr': repr(v)}
+            ctx.count(case, True)
+            r = impl.outcome(lambda: l.set(f, v))
+            if r[0] != 'ok':
+                if r[1][0] != 'gfapy':
+                    ctx.violation('failing-input', 'assigning %r to %s raised a foreign exception' % (v, f), case, 'gfapy.Error', impl.outcome_name(r))
+                continue
+            w = impl.outcome(lambda: l.field_to_s(f))
+            w2 = impl.outcome(lambda: str(l))
+            silent = w[0] == 'ok' and w2[0] == 'ok' and 'INVALID' not in w2[1]
+            if silent:
+                back = impl.outcome(lambda: g.Line(w2[1], version=ver, vlevel=1))
+                if back[0] != 'ok':
+                    ctx.violation('failing-input', 'the value %r of %s is written without error or marker at level %d although the text is refused when read' % (v, f, vl),
+                                  case, 'gfapy.Error or INVALID marker', w2[1],
+                                  python="import gfapy\nl=gfapy.Line(%r,version=%r,vlevel=%d)\nl.set(%r,%r)\nprint(repr(str(l)))" % (text, ver, vl, f, v))
+
+
 def run(ctx, deep, model_ok):
+    object_assignments(ctx)
     rng = ctx.rng
     g = impl.gfapy()
     n = 150 if deep else 30
